@@ -100,7 +100,11 @@ def main(argv):
         time.sleep(5)
         waited += 5
     t0 = time.time()
-    units = D.load_units()
+    try:
+        units = D.load_units()
+    except Exception as e:   # a unit template that cannot be loaded is a maintenance problem of the machinery, never an alarm
+        print('UNDECIDED %s: the unit templates could not be loaded: %s' % (prop, str(e)[:300]))
+        return 2
     if '--show-extracted' in argv:
         i = argv.index('--show-extracted')
         which = argv[i + 1] if i + 1 < len(argv) and not argv[i + 1].startswith('--') else None
